@@ -354,7 +354,7 @@ func c13Tree(c *harness.Check, cs lineCase) string {
 
 func TestC13_Trees(t *testing.T) {
 	c := harness.New(t, "C13", "trees",
-		"template directories with a page, a layout and a component; multi-line filler before one fault: run-time faults in the page (top level, inside an @insert block, inside a slot body, inside a component argument, after a custom function has rendered another template of the directory) must report the page's absolute path and the construct's line; parse-time faults in the page, in the layout file and in the component file must make NewTemplate fail naming that file's absolute path and line; an @insert naming no reserve and an unknown @component must name the page and the line of that directive. Non-trivial: expected line > 1. Distinct by hash of the tree.")
+		"template directories with a page, a layout and a component; multi-line filler before one fault: run-time faults in the page (top level, inside an @insert block, inside a slot body, inside a component argument, after a custom function has rendered another template of the directory) must report the page's absolute path and the construct's line; parse-time faults in the page, in the layout file and in the component file must make NewTemplate fail naming that file's absolute path and line; an @insert naming no reserve and an unknown @component must name the page and the line of that directive; an unknown @component written in the component file or in the layout file the page uses must name that file (page names that sort before and after those files). Non-trivial: expected line > 1. Distinct by hash of the tree.")
 	defer c.Finish()
 	runRapid(t, c, 1500, 15000, func(rt *rapid.T) {
 		fill := func() string {
@@ -369,9 +369,10 @@ func TestC13_Trees(t *testing.T) {
 		layout := fill() + "<html>@reserve(\"title\")\n<body>@reserve(\"content\")</body>" + fill() + "</html>\n"
 		comp := fill() + "<div>{{ arg }}@slot(\"s\")" + fill() + "@slot</div>\n"
 		page := "@use(\"lay\")\n" + fill() + "@insert(\"title\", \"T\")\n"
-		scenario := rapid.SampledFrom([]string{"page-top", "page-insert-block", "page-slot-body", "page-component-arg", "layout-parse", "component-parse", "page-parse", "undefined-insert", "unknown-component", "nolayout-page", "page-after-nested-render"}).Draw(rt, "scenario")
+		scenario := rapid.SampledFrom([]string{"page-top", "page-insert-block", "page-slot-body", "page-component-arg", "layout-parse", "component-parse", "page-parse", "undefined-insert", "unknown-component", "nolayout-page", "page-after-nested-render", "unknown-component-in-component-file", "unknown-component-in-layout-file"}).Draw(rt, "scenario")
 		// the page's name may itself end in the extension (file report.tw.tw), or sit in a directory
-		pageName := rapid.SampledFrom([]string{"page", "page", "report.tw", "sub/deep.er/page"}).Draw(rt, "pageName")
+		// (names that sort before and after those of the component and layout files: files are loaded in name order)
+		pageName := rapid.SampledFrom([]string{"page", "page", "report.tw", "sub/deep.er/page", "about", "a/b"}).Draw(rt, "pageName")
 		cs := lineCase{Fault: ff.kind, Page: pageName, WantFile: "t/" + pageName + ".tw"}
 		compUse := func(arg, slotBody string) string {
 			return "@component(\"comp\", {arg: " + arg + "})\n@slot(\"s\")" + slotBody + "@end\n@slot in default@end\n@end\n"
@@ -433,6 +434,15 @@ func TestC13_Trees(t *testing.T) {
 			ff = pickParseFault(rt, forms)
 			cs.Fault, cs.AtLoad = ff.kind, true
 			page += "@insert(\"content\")\n" + fill() + ff.src + "\n@end\n"
+		case "unknown-component-in-component-file":
+			// the component file the page uses names a component that does not exist: the fault is in that file
+			cs.Fault, cs.AtLoad, cs.WantFile = "unknown-component", true, "t/comp.tw"
+			comp = fill() + "<div>{{ arg }}\n" + fill() + "@component(\"zzFault\");\n@slot(\"s\")@slot</div>\n"
+			page += "@insert(\"content\")" + compUse("1", "x") + "@end\n"
+		case "unknown-component-in-layout-file":
+			cs.Fault, cs.AtLoad, cs.WantFile = "unknown-component", true, "t/lay.tw"
+			layout = fill() + "<html>@reserve(\"title\")\n" + fill() + "@component(\"zzFault\");\n<body>@reserve(\"content\")</body></html>\n"
+			page += "@insert(\"content\")c@end\n"
 		case "undefined-insert":
 			cs.Fault, cs.AtLoad = "undefined-insert", true
 			page += "@insert(\"content\")c@end\n" + fill() + "@insert(\"zzFault\", \"x\")\n"
